@@ -54,6 +54,24 @@ Theorem C17_header_line_roundtrip :
 Proof. exact full_header_line_roundtrip. Qed.
 Print Assumptions C17_header_line_roundtrip.
 
+(* Numbered names.  The writer renders the axis / column number in decimal into attribute names
+   (QMI_DataSet_axisN_size/_label/_unit, QMI_DataSet_columnN_label/_unit) and into the labels of the
+   special columns (axisN_index, axisN_scale).  For EVERY N: the reader's recogniser of special
+   columns (startswith axis, endswith _index / _scale, int() of the middle) gives back the kind and N ... *)
+Theorem C17_special_label_roundtrip :
+  forall n : nat,
+    parse_special (scheme_name NIndex n) = SIndex (Z.of_nat n)
+    /\ parse_special (scheme_name NScale n) = SScale (Z.of_nat n).
+Proof. exact special_roundtrip. Qed.
+Print Assumptions C17_special_label_roundtrip.
+
+(* ... and a name of the scheme determines its kind and its number, so the reader's look-ups by
+   rendered name can never hit the entry of another axis or column (10 vs 1, 100 vs 10, ...) *)
+Theorem C17_numbered_names_injective :
+  forall k n k' n', scheme_name k n = scheme_name k' n' -> k = k' /\ n = n'.
+Proof. exact scheme_name_inj. Qed.
+Print Assumptions C17_numbered_names_injective.
+
 (* ---- (b) layout of the text format ------------------------------------------------------------- *)
 
 (* For every outer shape sh (any number of axes): the k-th index column written is the k-th
@@ -172,6 +190,17 @@ Example C17_example_attr :
   = PStr [105; 116; 39; 115; 32; 34; 113; 34; 10; 173; 233; 128512]%N
   /\ py_repr str ex_pr (fun t => t) (AInt (-120)) = [45; 49; 50; 48]%N.
 Proof. vm_compute. split; reflexivity. Qed.
+
+(* names cross the one-digit / two-digit / three-digit boundaries; the recogniser of the pinned
+   code also accepts non-canonical spellings of a number (axis007_index), which the writer never emits *)
+Example C17_example_names :
+  scheme_name NColLabel 100
+  = [81; 77; 73; 95; 68; 97; 116; 97; 83; 101; 116; 95; 99; 111; 108; 117; 109; 110; 49; 48; 48; 95; 108; 97; 98; 101; 108]%N
+  /\ parse_special (scheme_name NScale 10) = SScale 10
+  /\ parse_special [97; 120; 105; 115; 48; 48; 55; 95; 105; 110; 100; 101; 120]%N = SIndex 7
+  /\ parse_special [97; 120; 105; 115; 120; 95; 105; 110; 100; 101; 120]%N = SBadInt
+  /\ parse_special [97; 120; 105; 115; 49; 48; 95; 115; 99; 97; 108; 101; 115]%N = SOther.
+Proof. vm_compute. repeat split. Qed.
 
 Example C17_example_layout :
   index_column [2; 3] 1 = [0; 1; 2; 0; 1; 2] /\ all_idx [2; 2] = [[0; 0]; [0; 1]; [1; 0]; [1; 1]]
